@@ -19,8 +19,7 @@ contract(AST + '.__init__', trusted=True, params=['self', 'dic'], defaults={'dic
          assumptions=['A-PY'], note='dict.__init__(self, dic): the new mapping has the contents of dic')
 contract(POL + '.__init__', trusted=True, params=['self', 'restrictions'], defaults={'restrictions': None},
          modifies=['self.acs'], assumptions=['A-PY'])
-contract('saml2_tophat.config:Config.getattr', trusted=True, pure=True, params=['self', 'attr', 'context'],
-         defaults={'context': None}, assumptions=['A-PY'])
+# (Config.getattr: contract in c_entity.py)
 
 contract(AST + '.apply_policy', types={'sp_entity_id': 'Any', 'policy': "Inst('%s')" % POL, 'metadata': 'Any'},
          ensures=[('C07-filtered', 'IS_FILTERED(self, policy, sp_entity_id)')],
